@@ -261,8 +261,20 @@ func (c *Cache) downloadZip1(ctx context.Context, mod module.Version, zipfile st
 	if err != nil {
 		return err
 	}
-	defer r.Close()
+	closed := false
+	defer func() {
+		if !closed {
+			r.Close()
+		}
+	}()
 	if _, err := io.Copy(f, r); err != nil {
+		return fmt.Errorf("failed to get module zip contents: %v", err)
+	}
+	// The contents cannot be assumed to be correct until the close
+	// error has been checked (see [modregistry.Module.GetZip]): a
+	// truncated or corrupted body is reported there.
+	closed = true
+	if err := r.Close(); err != nil {
 		return fmt.Errorf("failed to get module zip contents: %v", err)
 	}
 	if err := f.Close(); err != nil {
